@@ -31,6 +31,9 @@ pub struct Case {
     pub use_alt: bool,
     pub prepop: Vec<RawEntry>,
     pub ops: Vec<(RawOp, Hostile, Hostile)>,
+    /// PhysicalFS underlying constructed from a RELATIVE root path ("../<dir>/jail/root" seen from
+    /// the process's working directory); the twin uses the absolute path of the same directory
+    pub rel: bool,
 }
 
 /// How the canonical target is re-expressed as a (hostile) join argument.
@@ -64,8 +67,9 @@ fn strategy() -> impl Strategy<Value = Case> {
         proptest::bool::weighted(0.85),
         prepop_strategy(10),
         proptest::collection::vec((rawop_strategy(), hostile_strategy(), hostile_strategy()), 0..=25),
+        any::<bool>(),
     )
-        .prop_map(|(pool, under, p, p2, use_alt, prepop, ops)| Case { pool, under, p, p2, use_alt, prepop, ops })
+        .prop_map(|(pool, under, p, p2, use_alt, prepop, ops, rel)| Case { pool, under, p, p2, use_alt, prepop, ops, rel })
 }
 
 const ODD: [&str; 14] = ["..\\", "\\..", "..\\..", "%2e%2e", "..;", "...", ". .", "..\\x", "x\\..", "\\", "..%2f", " ..", ".. ", "~"];
@@ -205,9 +209,21 @@ struct Side {
 }
 
 /// underlying filesystem (whole stack wrapped by ONE recorder), pre-populated inside and outside P
-fn build_side(case: &Case, prepop: &Prepop, log: CallLog) -> Result<Side, String> {
+fn build_side(case: &Case, prepop: &Prepop, log: CallLog, relative_root: bool) -> Result<Side, String> {
     let mut scratch = vec![];
-    let fs = build_fs(&case.under, &mut scratch)?;
+    let fs: FsArc = if relative_root && case.under == Cfg::Phys {
+        // same layout as config::build_fs, but the root is handed to PhysicalFS as a relative path
+        let s = Arc::new(crate::util::Scratch::new("relphys"));
+        let rootdir = s.dir.join("jail").join("root");
+        std::fs::create_dir_all(&rootdir).map_err(|e| e.to_string())?;
+        let _ = std::fs::write(s.dir.join("jail").join("sentinel"), b"sentinel");
+        let name = s.dir.file_name().unwrap().to_string_lossy().into_owned();
+        scratch.push(s);
+        // the working directory is <scratch base>/cwd (set once in run())
+        Arc::new(vfs::PhysicalFS::new(format!("../{}/jail/root", name)))
+    } else {
+        build_fs(&case.under, &mut scratch)?
+    };
     let plain = plain_root(&fs);
     let recorded = VfsPath::new(RecFS { inner: fs, layer: 0, log });
     for (_, p, n) in prepop {
@@ -219,6 +235,7 @@ fn build_side(case: &Case, prepop: &Prepop, log: CallLog) -> Result<Side, String
 fn test(case: &Case, st: &mut Stats, counting: bool) -> CaseResult {
     let watch = JailWatch::new();
     let mut trace: Vec<String> = vec![];
+    let mut held = 0usize; // create sessions held open and inspected through the underlying filesystem
     let mut facts = (0usize, 0usize, 0usize, false); // hostile mutating ops, executed, tolerated ancestor lookups, content next to P
     let pool = {
         // overlay markers are name + "_wo": keep long names within the host's 255-byte limit
@@ -243,8 +260,8 @@ fn test(case: &Case, st: &mut Stats, counting: bool) -> CaseResult {
         let pname = p_total.rsplit('/').next().unwrap_or("").to_string();
         // side A: recorded underlying + altroot(s); side B: twin underlying, called directly
         let log: CallLog = Arc::new(Mutex::new(vec![]));
-        let a = build_side(case, &prepop, log.clone()).map_err(e0)?;
-        let b = build_side(case, &prepop, Arc::new(Mutex::new(vec![]))).map_err(e0)?;
+        let a = build_side(case, &prepop, log.clone(), case.rel).map_err(e0)?;
+        let b = build_side(case, &prepop, Arc::new(Mutex::new(vec![])), false).map_err(e0)?;
         // P must exist on both sides (a pre-populated file may be in the way: then skip the case)
         for side in [&a, &b] {
             if at(&side.plain, &p_total).map_err(|e| e0(e.to_string()))?.create_dir_all().is_err() {
@@ -317,6 +334,50 @@ fn test(case: &Case, st: &mut Stats, counting: bool) -> CaseResult {
                 facts.0 += 1;
             }
             facts.1 += 1;
+            // now and then a create session is held open: what the underlying filesystem shows
+            // while the altroot's handle is open must be what it shows for a handle opened on P/q
+            if let (Op::CreateFile(_, bytes), true) = (&op_q, raw.mode2 % 5 == 3) {
+                use std::io::Write;
+                let tp = at(&b_under, &format!("{}{}", p_total, q)).map_err(|e| (step, e.to_string()))?;
+                let ha = vp.create_file();
+                let hb = tp.create_file();
+                if let (Ok(mut ha), Ok(mut hb)) = (ha, hb) {
+                    let _ = ha.write_all(bytes);
+                    let _ = hb.write_all(bytes);
+                    let look = |root: &VfsPath| -> (Option<u64>, Option<Vec<u8>>) {
+                        let p = at(root, &format!("{}{}", p_total, q)).ok();
+                        let len = p.as_ref().and_then(|p| p.metadata().ok()).map(|m| m.len);
+                        let data = p.and_then(|p| p.open_file().ok()).map(|mut f| {
+                            let mut v = vec![];
+                            let _ = std::io::Read::read_to_end(&mut f, &mut v);
+                            v
+                        });
+                        (len, data)
+                    };
+                    let (va, vb) = (look(&a_under), look(&b_under));
+                    if va != vb {
+                        return Err((step, format!("create_file('{}') handle held open after writing {} bytes: the underlying filesystem shows len {:?} behind the altroot but {:?} for a handle opened on P/q directly", q, bytes.len(), va.0, vb.0)));
+                    }
+                    let _ = ha.flush();
+                    let _ = hb.flush();
+                    let (va, vb) = (look(&a_under), look(&b_under));
+                    if va != vb {
+                        return Err((step, format!("create_file('{}') handle flushed but still open: underlying shows len {:?} behind the altroot but {:?} for P/q directly", q, va.0, vb.0)));
+                    }
+                    drop(ha);
+                    drop(hb);
+                    trace.push(format!("create_file('{}') held open, observed through the underlying filesystem, flushed, dropped", q));
+                    let sa = snapshot(&a_under);
+                    let sb = snapshot(&b_under);
+                    if sa.tree != sb.tree {
+                        return Err((step, format!("after the held-open create session on '{}': underlying differs from the twin: {:?}", q, diff_trees(&sb.tree, &sa.tree))));
+                    }
+                    view = subtree(&sa.tree, &p_total);
+                    log.lock().unwrap().clear();
+                    held += 1;
+                    continue;
+                }
+            }
             log.lock().unwrap().clear();
             let out_a = exec_on(&vp, dvp.as_ref(), &op_q);
             let calls: Vec<Call> = std::mem::take(&mut *log.lock().unwrap());
@@ -416,7 +477,11 @@ fn test(case: &Case, st: &mut Stats, counting: bool) -> CaseResult {
                 if !case.use_alt {
                     st.label("direct_backend_root");
                 }
+                if case.rel && case.under == Cfg::Phys {
+                    st.label("physical_root_given_as_relative_path");
+                }
                 st.label_n("ops_executed", facts.1 as u64);
+                st.label_n("create_sessions_held_open", held as u64);
                 st.label_n("hostile_mutating_ops", facts.0 as u64);
                 st.label_n("tolerated_ancestor_lookups", facts.2 as u64);
                 if nt {
@@ -466,7 +531,7 @@ fn hostile_from(v: &Value) -> Option<Hostile> {
 
 fn case_to_json(c: &Case) -> Value {
     json!({
-        "pool": c.pool, "under": c.under.to_json(), "p": c.p, "p2": c.p2, "use_alt": c.use_alt,
+        "pool": c.pool, "under": c.under.to_json(), "p": c.p, "p2": c.p2, "use_alt": c.use_alt, "rel": c.rel,
         "prepop": c.prepop.iter().map(entry_to_json).collect::<Vec<_>>(),
         "ops": c.ops.iter().map(|(r, a, b)| json!([rawop_to_json(r), hostile_json(a), hostile_json(b)])).collect::<Vec<_>>(),
     })
@@ -480,6 +545,7 @@ fn case_from_json(v: &Value) -> Option<Case> {
         p: u16s(v.get("p")?),
         p2: v.get("p2").and_then(|x| if x.is_null() { None } else { Some(u16s(x)) }),
         use_alt: v.get("use_alt")?.as_bool()?,
+        rel: v.get("rel").and_then(|x| x.as_bool()).unwrap_or(false),
         prepop: v.get("prepop")?.as_array()?.iter().filter_map(entry_from_json).collect(),
         ops: v.get("ops")?.as_array()?.iter().filter_map(|o| {
             let a = o.as_array()?;
@@ -488,20 +554,28 @@ fn case_from_json(v: &Value) -> Option<Case> {
     })
 }
 
+/// confine relative paths too: the process runs from an empty scratch directory
+fn ensure_cwd() {
+    static ONCE: std::sync::Once = std::sync::Once::new();
+    ONCE.call_once(|| {
+        let cwd = crate::util::scratch_base().join("cwd");
+        let _ = std::fs::create_dir_all(&cwd);
+        let _ = std::env::set_current_dir(&cwd);
+    });
+}
+
 pub fn replay(v: &Value) -> CaseResult {
+    ensure_cwd();
     let _ = (data_from_json, data_to_json);
     let case = case_from_json(v.get("case").unwrap_or(&Value::Null)).ok_or_else(|| Failure { message: "unparsable C07 replay".into(), replay: v.clone() })?;
     let mut st = Stats::default();
     test(&case, &mut st, false)
 }
 
-const RULE: &str = "underlying U in {Mem, Phys, Overlay[..], Overlay on sub-paths} pre-populated inside and outside P; P = 0..3 components drawn from the case's own name pool (so that children named like P occur), optionally an altroot of an altroot, or no altroot at all (backend root used directly); typed C01 ops whose path arguments are join()ed from hostile strings ('../'-climbs, absolute restarts, detours, backslashes, '%2e', names glued to '..', P's own name); oracles: (1) twin instance U' receives the call on P/q (q by the independent reference resolver): same outcome class/value and identical WHOLE underlying snapshots after every step, and the altroot view equals the subtree below P; (2) a recorder between altroot and U: every trait call's path lies in P (exists/metadata on proper ancestors of P tolerated and counted); (3) OS jail around every PhysicalFS root (sentinel sibling, parent, cwd, '/') unchanged; non-trivial = >=1 mutating op issued through a hostile argument while content exists next to P";
+const RULE: &str = "underlying U in {Mem, Phys, Overlay[..], Overlay on sub-paths} pre-populated inside and outside P; P = 0..3 components drawn from the case's own name pool (so that children named like P occur), optionally an altroot of an altroot, or no altroot at all (backend root used directly); a plain PhysicalFS underlying is built from a RELATIVE root path ('../<dir>/jail/root') in half of the cases while its twin uses the absolute path; create sessions are now and then held open and the underlying filesystem inspected meanwhile; typed C01 ops whose path arguments are join()ed from hostile strings ('../'-climbs, absolute restarts, detours, backslashes, '%2e', names glued to '..', P's own name); oracles: (1) twin instance U' receives the call on P/q (q by the independent reference resolver): same outcome class/value and identical WHOLE underlying snapshots after every step, and the altroot view equals the subtree below P; (2) a recorder between altroot and U: every trait call's path lies in P (exists/metadata on proper ancestors of P tolerated and counted); (3) OS jail around every PhysicalFS root (sentinel sibling, parent, cwd, '/') unchanged; non-trivial = >=1 mutating op issued through a hostile argument while content exists next to P";
 
 pub fn run(ctx: &RunCtx) -> i32 {
-    // confine relative paths too: run from an empty scratch directory
-    let cwd = crate::util::scratch_base().join("cwd");
-    let _ = std::fs::create_dir_all(&cwd);
-    let _ = std::env::set_current_dir(&cwd);
+    ensure_cwd();
     let reg = crate::regress::run_for(&ctx.id, &replay);
     if let Some((path, msg)) = &reg.violation {
         println!("--- regression input fails ---\n{}", msg);
